@@ -1,9 +1,9 @@
 (* C11 -- only the documented extent of caller buffers is read or written.
    Property theorems only: statement + exact + Print Assumptions. *)
 From Coq Require Import List ZArith Bool.
-From LJT Require Import model.Extent model.ExtentApi model.ExtentTmp model.ExtentRows model.ExtentHist model.ExtentLanes model.ExtentShuffle model.Extent565 model.ExtentPost gen.GenAlign gen.GenTail
+From LJT Require Import model.Extent model.ExtentApi model.ExtentTmp model.ExtentRows model.ExtentHist model.ExtentLanes model.ExtentShuffle model.Extent565 model.ExtentPost model.ExtentUps gen.GenAlign gen.GenTail
   proofs.ExtentProofs proofs.ExtentYuvProofs proofs.ExtentApiProofs proofs.ExtentTmpProofs proofs.ExtentRowsProofs
-  proofs.ExtentHistProofs proofs.ExtentLanesProofs proofs.ExtentShuffleProofs proofs.Extent565Proofs proofs.ExtentPostProofs proofs.ExtentExamples.
+  proofs.ExtentHistProofs proofs.ExtentLanesProofs proofs.ExtentShuffleProofs proofs.Extent565Proofs proofs.ExtentPostProofs proofs.ExtentUpsProofs proofs.ExtentExamples.
 Import ListNotations.
 Local Open Scope Z_scope.
 
@@ -310,6 +310,33 @@ Theorem C11_spare_copy_current :
   else exists cropped ow, 1 <= ow /\ spare_copy_len mrg_copy565 mrg_init565 mrg_crop565 true cropped ow ow 3 > out_row_size true ow 3.
 Proof. exact spare_copy_current. Qed.
 Print Assumptions C11_spare_copy_current.
+
+(* replicating upsamplers of jdsample.c (int_upsample for every h_expand >= 1, h2v1/h2v2_upsample, the row copies for
+   v_expand > 1, h1v2_fancy_upsample): stores in [0, round_up(output_width, h_expand)), loads in
+   [0, ceil(output_width / h_expand)); with h_expand | max_h_samp_factor <= 4 inside the padded colour-buffer row *)
+Theorem C11_int_upsample_row_extent : forall h ow, 1 <= h -> 0 <= ow ->
+  (forall s, In s (snd (int_upsample_row h ow)) -> 0 <= s < ExtentUps.round_up ow h) /\
+  (forall x, In x (fst (int_upsample_row h ow)) -> 0 <= x < ceil_div ow h).
+Proof. exact int_upsample_row_extent. Qed.
+Print Assumptions C11_int_upsample_row_extent.
+
+Theorem C11_h2_upsample_row_extent : forall ow, 0 <= ow ->
+  (forall s, In s (snd (h2_upsample_row ow)) -> 0 <= s < ExtentUps.round_up ow 2) /\
+  (forall x, In x (fst (h2_upsample_row ow)) -> 0 <= x < ceil_div ow 2).
+Proof. exact h2_upsample_row_extent. Qed.
+Print Assumptions C11_h2_upsample_row_extent.
+
+Theorem C11_copy_and_h1v2_extent : forall n, 0 <= n ->
+  (forall s, In s (copy_row_stores n) -> 0 <= s < n) /\
+  (forall s, In s (fst (h1v2_fancy_row n)) \/ In s (snd (h1v2_fancy_row n)) -> 0 <= s < n).
+Proof. exact copy_and_h1v2_extent. Qed.
+Print Assumptions C11_copy_and_h1v2_extent.
+
+Theorem C11_replicating_upsamplers_extent : forall h maxh ow, 1 <= h <= 4 -> 1 <= maxh <= 4 -> (h | maxh) -> 0 <= ow ->
+  forall s, In s (snd (int_upsample_row h ow)) \/ (h = 2 /\ In s (snd (h2_upsample_row ow))) \/ In s (copy_row_stores ow) ->
+  0 <= s < sarray_row_len align_size_simd 1 (ExtentUps.round_up ow maxh).
+Proof. exact replicating_upsamplers_extent. Qed.
+Print Assumptions C11_replicating_upsamplers_extent.
 
 (* (5) The property itself is extent_respected applied to the accesses the COMPILED LIBRARY
    performs on caller memory (machine loads and stores).  That function is not an object
